@@ -209,7 +209,8 @@ class IntPOD(BasePOD[int]):
                 f"{self._qualname} only accepts int,"
                 f" not {type(value).__name__}"
             )
-        return str(value)
+        # bool is an int, but str(True) cannot be read back
+        return str(int(value))
 
 
 class FloatPOD(BasePOD[float]):
